@@ -612,6 +612,50 @@ def _nested(case, res):
                 res.violate(name + ":nested:component:" + key, "nested write did not reach the "
                             "component's own parameter", expected=repr(new),
                             observed=repr(got)[:100])
+    # one call that swaps the whole list of named steps, replaces a component of the NEW list by
+    # name and sets a nested parameter of another new component (documented order: all steps,
+    # step replacement, step parameters)
+    est = make()
+    for attr, cur in sorted(est.get_params(deep=False).items()):
+        if not (isinstance(cur, list) and len(cur) >= 2 and
+                all(isinstance(x, tuple) and len(x) == 2 for x in cur)):
+            continue
+        from sklearn.base import clone
+
+        newlist = [("n%d" % i, clone(e) if isinstance(e, BaseEstimator) else e)
+                   for i, (_, e) in enumerate(cur)]
+        repl = clone(newlist[1][1]) if isinstance(newlist[1][1], BaseEstimator) else newlist[1][1]
+        kw = {attr: newlist, "n1": repl}
+        leaf = None
+        if isinstance(newlist[0][1], BaseEstimator):
+            for pn, pv in sorted(newlist[0][1].get_params(deep=False).items()):
+                if isinstance(pv, (int, np.integer)) and not isinstance(pv, bool):
+                    leaf = (pn, int(pv) + 1)
+                    kw["n0__" + pn] = leaf[1]
+                    break
+        est3 = make()
+        s3 = call(lambda: est3.set_params(**kw))
+        res.transitions += 1
+        if not s3.ok:
+            res.violate(name + ":combined:raises", "set_params(steps=..., name=..., name__p=...) "
+                        "raised", observed=s3.brief())
+            continue
+        res.nt((name, "combined", attr))
+        deep3 = est3.get_params(deep=True)
+        steps3 = dict(est3.get_params(deep=False)[attr])
+        if deep3.get("n1") is not repl or steps3.get("n1") is not repl:
+            res.violate(name + ":combined:replace", "a component of the newly set list was not "
+                        "replaced by name in the same set_params call",
+                        expected=repr(repl)[:80], observed=repr(steps3.get("n1"))[:80])
+        if leaf is not None and (deep3.get("n0__" + leaf[0]) != leaf[1] or
+                                 steps3["n0"].get_params(deep=False)[leaf[0]] != leaf[1]):
+            res.violate(name + ":combined:nested", "nested parameter of a component of the newly "
+                        "set list was not written", expected=leaf,
+                        observed=deep3.get("n0__" + leaf[0]))
+        stray = [k for k in ("n0", "n1") if k in vars(est3)]
+        if stray:
+            res.violate(name + ":combined:stray", "step name stored as a stray attribute",
+                        observed=stray)
     # replace whole components by name
     est = make()
     for key, cur in sorted(est.get_params(deep=True).items()):
